@@ -3,6 +3,7 @@ package props
 import (
 	"encoding/json"
 	"fmt"
+	gsimpl "github.com/ipfs/go-graphsync/impl"
 	"strings"
 
 	"github.com/ipfs/go-graphsync"
@@ -23,10 +24,11 @@ import (
 // call while two requests run; a third request follows.
 
 type c22Case struct {
-	Callback string `json:"callback"` // read write commit decode reify adl chooser
-	Side     string `json:"side"`     // requestor | responder
-	K        int    `json:"k"`        // 1-based call index (counted from the start of the judged phase)
-	Solo     bool   `json:"solo"`     // only the target request runs in the judged phase
+	Callback string `json:"callback"`                    // read write commit decode reify adl chooser
+	Side     string `json:"side"`                        // requestor | responder
+	K        int    `json:"k"`                           // 1-based call index (counted from the start of the judged phase)
+	Solo     bool   `json:"solo"`                        // only the target request runs in the judged phase
+	NoCb     bool   `json:"no_panic_callback,omitempty"` // the instances are built without a panic callback (the default)
 }
 
 func c22Selector(cb string) datamodel.Node {
@@ -69,8 +71,12 @@ func c22Run(cs c22Case) *c22Obs {
 		if cs.Side == "responder" {
 			armed = rs
 		}
-		q := f.AddNode(peer.ID("Q"), qs)
-		r := f.AddNode(peer.ID("R"), rs)
+		var nopts []gsimpl.Option
+		if cs.NoCb {
+			nopts = append(nopts, gsimpl.PanicCallback(nil))
+		}
+		q := f.AddNode(peer.ID("Q"), qs, nopts...)
+		r := f.AddNode(peer.ID("R"), rs, nopts...)
 		chooser := func(st *harness.Store) func(ipld.Link, ipld.LinkContext) (ipld.NodePrototype, error) {
 			return func(ipld.Link, ipld.LinkContext) (ipld.NodePrototype, error) {
 				st.Arm("chooser")
@@ -118,10 +124,15 @@ func c22Run(cs c22Case) *c22Obs {
 
 func c22Judge(cs c22Case, o *c22Obs) (sig, what, class string) {
 	tag := cs.Callback + "/" + cs.Side
-	class = fmt.Sprintf("%s fired=%v", tag, o.fired)
+	class = fmt.Sprintf("%s fired=%v callback-configured=%v", tag, o.fired, !cs.NoCb)
 	detail := fmt.Sprintf("panic armed at call %d of %s on the %s (solo=%v): ", cs.K, cs.Callback, cs.Side, cs.Solo)
 	if o.escaped != "" {
+		// the call site outside any recover is what fails, with or without a configured callback
 		return "panic-escaped/" + tag, detail + "the panic escaped a goroutine without recover, the process would have crashed: " + o.escaped, class
+	}
+	if cs.NoCb {
+		tag += "/no-callback-configured"
+		detail = "no panic callback configured; " + detail
 	}
 	sel := c22Selector(cs.Callback)
 	healthy := func(i int) string {
@@ -194,6 +205,9 @@ func c22Judge(cs c22Case, o *c22Obs) (sig, what, class string) {
 	if len(fr.Errs) == 0 && healthy(failed[0]) != "" {
 		return "failed-request-without-error/" + tag, detail + fmt.Sprintf("request %d delivered a truncated result without any error", failed[0]+1), class
 	}
+	if cs.NoCb {
+		return "", "", class
+	}
 	if len(pan) != 1 || !strings.Contains(pan[0], "injected panic in "+cs.Callback) {
 		return "panic-callback-not-called-once/" + tag, detail + fmt.Sprintf("panic callback on the %s saw %v", cs.Side, pan), class
 	}
@@ -204,13 +218,14 @@ func runC22(c *core.Ctx) {
 	var idx int64
 	for _, side := range []string{"requestor", "responder"} {
 		for _, cb := range []string{"read", "write", "commit", "decode", "reify", "adl", "chooser"} {
-			for _, solo := range []bool{true, false} {
+			for _, mode := range []int{0, 1, 2} {
+				solo, nocb := mode == 0, mode == 2
 				for k := 1; k <= 16; k++ {
 					idx++
 					if !c.Mine(idx) {
 						continue
 					}
-					cs := c22Case{Callback: cb, Side: side, K: k, Solo: solo}
+					cs := c22Case{Callback: cb, Side: side, K: k, Solo: solo, NoCb: nocb}
 					o := c22Run(cs)
 					sig, what, class := c22Judge(cs, o)
 					c.Res.Evaluations++
@@ -235,7 +250,7 @@ func runC22(c *core.Ctx) {
 
 func init() {
 	core.Register(&core.Prop{ID: "C22", Level: "fault_enumeration",
-		Rule:        "panic armed at call k=1..16 of each of {storage read opener, storage write opener, block committer, codec decoder, node reifier, ADL reifier reached through interpret-as, link-target prototype chooser} x {requestor, responder}, while one or two requests over 3-block chains run (after a healthy warm-up request) and a third request follows; a class is (callback, side, fired or call index beyond the run)",
+		Rule:        "panic armed at call k=1..16 of each of {storage read opener, storage write opener, block committer, codec decoder, node reifier, ADL reifier reached through interpret-as, link-target prototype chooser} x {requestor, responder}, while one or two requests over 3-block chains run (after a healthy warm-up request) and a third request follows; the two-request runs are repeated on instances built without a panic callback (the default configuration); a class is (callback, side, fired or call index beyond the run)",
 		Assumptions: []string{"two real instances, default schedule", "with two concurrent requests whichever request the k-th call belongs to is the victim; the other must equal its reference result"},
 		Run:         runC22, QuickBudget: 200, ThoroughBudget: 600,
 		Replay: func(raw json.RawMessage) string {
